@@ -116,6 +116,19 @@ add("C20", "4/C20", E2,
     "2/3 from 7 constructors: exactly ValueError, and working/reference/original bytes-, dtype- and type-identical afterwards.",
     "only the listed classes are demanded; object identity after rejection is not")
 
+add("C18", "4/C18", E3,
+    "The finite configuration space is enumerated completely: all 95 documented names x every '-'/'_' spelling x unpack flag "
+    "through load_dataset against a scripted network and scratch HOME / TRAFFIC_WEAVER_DATA; ~200 unknown names; pairwise "
+    "distinctness of URL, checksum, remote file name and cache slot over all 76 remote datasets.",
+    "pinned checksums are only checked for shape and distinctness (real files unavailable offline); loader body runs with the fake payload's checksum")
+add("C19", "4/C19 + 5", E3,
+    "The real loader in a closed environment (scripted network, virtual sleep, every audited OS event / stat / network call / "
+    "half-write a step boundary): all lazily chosen network-answer sequences x n_retries x flags x gzip x initial cache state; "
+    "a kill at every step boundary under two crash models that must agree, followed by offline and online recovery; "
+    "explicit-state BFS over ALL interleavings of 2 and 3 loaders (4 in thorough) with <=1 crash and <=1 fault; 4 loaders "
+    "preemption-bounded; all 5700 ordered dataset pairs.",
+    "crash = process kill, not power loss; 5..16 loaders are not explored directly (see DESIGN.md 5.6); CPython refcounting closes files")
+
 ALL = ["C%02d" % i for i in range(1, 21)]
 NOT_BUILT = "check not built yet in this session (design in DESIGN.md section 4); will be claimed once its harness exists"
 
